@@ -123,6 +123,49 @@ theorem txn_single (s : State) (i : Nat) (op : TOp) :
   | ok x => obtain ⟨w, rs⟩ := x; simp [txn, txnLoop, h]
   | error e => simp [txn, txnLoop, h]
 
+/-- `ensureNodeTxn` refuses the write: the request carries a node ID and the name it asks for is
+    defended by another registration (a rename never disputes a name with `allowClashWithoutID`,
+    a new ID may take over the name of an ID-less or unhealthy registration) -/
+def nodeRefused (s : State) (n : String) (v : NodeVal) : Bool :=
+  decide (v.id ≠ "") &&
+    match nodeById s.nodes v.id with
+    | some (oldName, _) => decide (oldName ≠ n) && nameConflict s.nodes s.chks n v.id false
+    | none => nameConflict s.nodes s.chks n v.id true
+
+theorem nodeSet_refused (s : State) (i : Nat) (n : String) (v : NodeVal) (h : nodeRefused s n v = true) :
+    nodeSet s i n v = .error .nodeNameConflict := by
+  unfold nodeRefused at h
+  unfold nodeSet
+  by_cases hid : v.id = ""
+  · simp [hid] at h
+  · cases hb : nodeById s.nodes v.id with
+    | none => simp [hid, hb] at h; simp [hid, h]
+    | some x =>
+      obtain ⟨oldName, e⟩ := x
+      simp [hid, hb] at h
+      simp [hid, h.1, h.2]
+
+theorem nodeSet_ok (s : State) (i : Nat) (n : String) (v : NodeVal) (h : nodeRefused s n v = false) :
+    ∃ s', nodeSet s i n v = .ok s' := by
+  unfold nodeRefused at h
+  unfold nodeSet
+  by_cases hid : v.id = ""
+  · exact ⟨_, by simp [hid]; rfl⟩
+  · cases hb : nodeById s.nodes v.id with
+    | none =>
+      simp [hid, hb] at h
+      exact ⟨_, by simp [hid, h]; rfl⟩
+    | some x =>
+      obtain ⟨oldName, e⟩ := x
+      simp only [hid, hb, ne_eq, not_false_eq_true, decide_true, Bool.true_and, Bool.and_eq_false_imp,
+        decide_eq_true_eq] at h
+      by_cases hn : oldName = n
+      · by_cases hv : e.val = v
+        · exact ⟨s, by simp [hid, hn, hv]⟩
+        · exact ⟨_, by simp [hid, hn, hv]; rfl⟩
+      · have := h hn
+        exact ⟨_, by simp [hid, hn, this]; rfl⟩
+
 theorem svcSet_missing (s : State) (i : Nat) (n id : String) (p : Nat) (h : tget s.nodes n = none) :
     svcSet s i n id p = .error .missingNode := by simp [svcSet, h]
 
